@@ -14,7 +14,7 @@ SPEC = {
     "C03": [("MD.Props.C03", None), ("MD.Proofs.ExpectileInst", ["MD.eSum_expectile", "MD.eSum_strictMono", "MD.expectile_le_iff"])],
     "C04": [("MD.Props.C04_HES", None), ("MD.Props.C04_HQS", None)],
     "C05": [("MD.Props.C05", None)],
-    "C06": [("MD.Props.C06", None)],
+    "C06": [("MD.Props.C06", None), ("MD.Props.C06b", None)],
     "C07": [("MD.Props.C07", None)],
     "C08": [("MD.Props.C08", None)],
     "C09": [("MD.Props.C09", None)],
